@@ -134,6 +134,7 @@ Proof.
     + eapply IH; [|exact E]. apply (c_cbbump HC); [exact Hw|exact EC].
   - (* IBody *)
     cbn zeta in E. set (sd := sys_or_default P t) in *.
+    destruct (negb (fresh_claim_b t w)); [discriminate E|].
     assert (Hb : I (body_begin P sd t runno captured w)) by (apply (c_body HC); exact Hw).
     destruct (sd_kind sd).
     + destruct (acts P (OSys t runno) 0 (script_of P t runno) (body_begin P sd t runno captured w)) as [w1 cs] eqn:EA.
